@@ -53,10 +53,19 @@ def c01(run):
     for _ in range(run.n(40, 1500)):
         for t in texts.token_prefixes(rng, texts.valid_program(rng, depth=1, max_depth=2)[1]):
             cases.append((t, 'prefix'))
+    # tokens of every class at every byte length 1..40/80 and at powers of two +-1, a multi-byte letter on each boundary;
+    # words around letters whose case mapping changes their length; each alone, as an operand, and as the last line
+    for t in texts.sized_tokens(run.tier == 'quick'):
+        cases += [(t, 'sized-token'), ('say ' + t + '\n', 'sized-token'), ('say 1\n' + t, 'sized-token')]
+    # one thing repeated N times (N = powers of two +-1, 1000): paragraphs, statements, arguments, operands, nesting, ...
+    for k, nn, t in texts.scale_programs(run.tier == 'quick'):
+        cases += [(t, 'scale:' + k), (t + 'put\n', 'scale:' + k)]
     run.rule = ('texts: token soup over the full vocabulary (keywords in any case, identifiers with digits/underscores/'
                 'non-ASCII, numbers incl. malformed, strings/comments open and closed across lines, apostrophe forms, '
                 'punctuation, CR/LF, stray else), valid programs, token-level mutations and truncations of valid programs, every '
-                'token-boundary prefix of valid programs (no final newline; with trailing blank/comment), '
+                'token-boundary prefix of valid programs (no final newline; with trailing blank/comment), tokens of every class at every '
+                'byte length 1..40 (thorough: 80) and at powers of two +-1 up to 1025 with a multi-byte letter on each boundary, words '
+                'around the 16 letters whose case mapping changes length, one construct repeated N times (N = 8 ... 1025), '
                 'nests up to depth 300; non-trivial = the text is rejected (error path) or contains a string, comment, '
                 'apostrophe or non-ASCII character; distinct by text')
     reqs = ['parse ' + hx(t) for t, _ in cases]
@@ -206,6 +215,9 @@ def c12(run):
     for L in range(1, (3 if run.tier == 'quick' else 4) + 1):
         cases += [''.join(cs) for cs in itertools.product(LEX_ALPHABET, repeat=L)]
     run.extra['small_scope'] = {'alphabet': len(LEX_ALPHABET), 'exhaustive_up_to_length': 3 if run.tier == 'quick' else 4}
+    for t in texts.sized_tokens(run.tier == 'quick'):
+        cases += [t, 'x ' + t + "'s y\n" + t]
+    cases += [t for _, _, t in texts.scale_programs(run.tier == 'quick')]
     run.rule = ('every string up to length 3 (quick) / 4 (thorough) over a %d-character alphabet (letters of the suffixes and of a '
                 'keyword, digits, quote, parentheses, apostrophe, period, comma, hyphen, symbols, blanks incl. CR/TAB/NBSP, line '
                 'feed, multi-byte and case-length-changing letters, BOM); ' % len(LEX_ALPHABET) +
@@ -279,6 +291,14 @@ def c02(run):
     run.extra['renderings_per_tree'] = k
     # the function text -> tree itself, on every short token sequence (accepted: the tree; rejected: that it is rejected)
     small_scope(run, lambda r: 'err' if r.startswith('err') else rock.erase_positions(r), 'spelling -> tree')
+    # one construct repeated N times (N = powers of two +-1, 1000), words and names of every byte length: the tree
+    sc = [t for _, _, t in texts.scale_programs(run.tier == 'quick')]
+    sc += ['put ' + t + ' into ' + t + '\nsay ' + t + '\n' for t in texts.sized_tokens(run.tier == 'quick')[::7]]
+    sreqs = ['parse ' + hx(t) for t in sc]
+    run.tie(sreqs, proj=lambda r: 'err' if r.startswith('err') else rock.erase_positions(r), functional=True,
+            desc=lambda i: {'text': sc[i][:2000], 'section': 'scale'})
+    for t in sc:
+        run.case(('scale', t), True, kind='scale')
 
 
 # ----------------------------------------------------------------------------- C13
@@ -313,7 +333,7 @@ def inject(rng, prog):
     cat, lines = rng.choice(FAULTS)
     line = rng.choice(lines)
     # keyword case variations
-    if rng.random() < 0.3 and "'n'" not in line:          # (`'N'` is not the `'n'` separator)
+    if rng.random() < 0.3:
         line = line.upper() if rng.random() < 0.5 else line.capitalize()
     # collect insertion points: (list, index)
     points = []
@@ -394,6 +414,29 @@ def c13(run):
             if int(f[2]) != exp_line:
                 run.fail({'text': text, 'fault': line, 'line': exp_line, 'answer': r[:200]},
                          'the %s fault %r is on line %d but the error names line %s' % (cat, line, exp_line, f[2]))
+    # tokens of every class and byte length as the faulty line (whether each IS a fault is the model's call; the line must
+    # agree), and a fault after one construct repeated N times (model-free: the line is the number of line breaks + 1)
+    st = ['say 1\n\n' + t + '\nsay 2\n' for t in texts.sized_tokens(run.tier == 'quick')]
+    sc = [(k, t + 'put\n') for k, _, t in texts.scale_programs(run.tier == 'quick')]
+    sreqs = ['parse ' + hx(t) for t in st] + ['parse ' + hx(t) for _, t in sc]
+    sm, sim = run.tie(sreqs, proj=lambda r: ('err ' + r.split(' ')[2]) if r.startswith('err') else r.split(' ')[0], functional=True,
+                      desc=lambda i: {'text': (st + [t for _, t in sc])[i][:2000], 'section': 'sized / scale'})
+    for (k, t), r in zip(sc, sim[len(st):]):
+        run.case(('scale', t), True, kind='scale')
+        if r is None:
+            continue
+        f = r.split(' ')
+        if k in ('paragraphs', 'paragraphs-if', 'statements', 'leading-blank-lines'):
+            want = t.count('\n')
+            if f[0] != 'err' or int(f[2]) != want:
+                run.fail({'text': t[:300] + ' ...', 'repeated': k, 'line': want, 'answer': r[:200]},
+                         'a missing-operand fault on line %d after %s is not rejected on that line' % (want, k))
+    for t, r in zip(st, sim):
+        run.case(('sized', t), True, kind='sized-token')
+        if r is not None and r.startswith('err'):
+            f = r.split(' ')
+            if len(f) < 4 or f[3] == 'crash' or len(f[3]) <= 1:
+                run.fail({'text': t, 'answer': r[:200]}, 'the parse error cannot be rendered')
     # every short token sequence: which ones are rejected, with which code and on which line
 
     def proj13(r):
